@@ -169,3 +169,30 @@ func VerifC16Stream() {
 		verifapi.Assert(len(replies) == requests && len(svc.ran) == len(mayRun), "c16.stream.every-request-answered")
 	}
 }
+
+// VerifC16ConcurrentRegister: two registrations on one Server at the same
+// time (a whole receiver under a prefix, and a single method under its own
+// name): afterwards exactly the names of both are served - none is lost,
+// whatever the interleaving.
+func VerifC16ConcurrentRegister() {
+	srv := &Server{}
+	if verifapi.Bool("something-registered-before") {
+		if err := srv.RegisterMethod("first_void", &VerifLedger{}, "Void"); err != nil {
+			verifapi.Unreachable("c16.concurrent-register")
+		}
+	}
+	done := make(chan error, 2)
+	go func() { done <- srv.Register("bank_", &VerifLedger{}, "void", "refuse") }()
+	go func() { done <- srv.RegisterMethod("other_void", &VerifLedger{}, "Void") }()
+	e1, e2 := <-done, <-done
+	verifapi.Reach("c16.concurrent-register")
+	verifapi.Assert(e1 == nil && e2 == nil, "c16.registration-succeeds")
+	served := func(name string) bool {
+		id, _ := json.Marshal(1)
+		out := srv.Handle(context.Background(), &Message{ID: id, Version: Version, Request: &Request{Method: name}})
+		return !(out != nil && out.Response != nil && out.Response.Error != nil && out.Response.Error.Code == ErrCodeMethodNotFound)
+	}
+	verifapi.Assert(served("bank_void") && served("bank_refuse"), "c16.registered-name-is-served")
+	verifapi.Assert(served("other_void"), "c16.registered-name-is-served")
+	verifapi.Assert(!served("bank_transfer") && !served("bank_broken") && !served("other_refuse"), "c16.unregistered-name-is-method-not-found")
+}
